@@ -118,6 +118,12 @@ def api_cases(chk, tier):
         for op in ("Mul", "Add", "Div", "Sub", "Mul"):
             if not (op == "Div" and ky == "straddle"):
                 out.append((op, "f", X, Y, (kx, ky, "session"), op == "Add"))
+    # Staircase.balchprod called directly ("Frechet convolution of two p-boxes when any of them straddles zero"): every pairing of
+    # straddling / one-signed operands, either order
+    for kx, ky in (("straddle", "pos"), ("pos", "straddle"), ("straddle", "straddle"), ("straddle", "neg"), ("neg", "straddle"), ("pos", "pos")):
+        X = pbx.gen_bounds(rng, 200, kx, dy=rng.random() < 0.5)
+        Y = pbx.gen_bounds(rng, 200, ky, dy=rng.random() < 0.5)
+        out.append(("Mul", "f", X, Y, (kx, ky, "balchprod"), False, "balch"))
     # the Frechet combination requested explicitly while ANOTHER dependency is the ambient setting: still the Frechet result
     for amb in "poi":
         for op, kx, ky in (("Mul", "straddle", "straddle"), ("Mul", "straddle", "pos"), ("Mul", "neg", "straddle"), ("Div", "straddle", "pos"), ("Add", "pos", "straddle"), ("Sub", "neg", "pos")):
@@ -134,7 +140,9 @@ def run_api(case):
     amb = case[6] if len(case) > 6 else None
     try:
         x, y = pbx.staircase_of(X), pbx.staircase_of(Y)
-        if bare:
+        if amb == "balch":
+            r = x.balchprod(y)
+        elif bare:
             r = pbx.PYOPS[op](x, y)
         else:
             from pyuncertainnumber.pba.context import dependency as _dep
@@ -183,6 +191,8 @@ def api_oracle(chk, case, out):
     op, d, X, Y, kinds, bare = case[:6]
     rng = chk.rng
     ref = api_reference(op, X, Y)
+    if len(case) > 6 and case[6] == "balch" and ref is not None and ref != "zero" and (pbx.sign_of(*X) == "straddle" or pbx.sign_of(*Y) == "straddle"):
+        ref = None
     if ref == "zero":
         if out[0] == "ok":
             return "quotient by a p-box containing zero returns a bounded p-box instead of raising"
@@ -272,11 +282,17 @@ def body(chk):
                        ".\nDefinition verdicts := map kcheck cases.\n", len(items)))
     # ---- API level
     ac = api_cases(chk, chk.tier)
-    aouts = [run_api(c) for c in ac]
     CA = 6
-    for s in range(0, len(ac), CA):
-        items = [f"({c[0]}, {pbx.DEPS[c[1]]}, {coq_pb(*c[2])}, {coq_pb(*c[3])}, {coq_pout(o)})" for c, o in zip(ac[s:s + CA], aouts[s:s + CA])]
+    is_balch = lambda c: len(c) > 6 and c[6] == "balch"
+    ac = [c for c in ac if not is_balch(c)] + [c for c in ac if is_balch(c)]      # balchprod cases last (their own case type)
+    aouts = [run_api(c) for c in ac]
+    n_plain = len([c for c in ac if not is_balch(c)])
+    for s in range(0, n_plain, CA):
+        items = [f"({c[0]}, {pbx.DEPS[c[1]]}, {coq_pb(*c[2])}, {coq_pb(*c[3])}, {coq_pout(o)})" for c, o in zip(ac[s:min(s + CA, n_plain)], aouts[s:min(s + CA, n_plain)])]
         chunks.append(("Definition cases : list acase := " + coq_list(items) + ".\nDefinition verdicts := map acheck cases.\n", len(items)))
+    for s in range(n_plain, len(ac), CA):
+        items = [f"({coq_pb(*c[2])}, {coq_pb(*c[3])}, {coq_pout(o)})" for c, o in zip(ac[s:s + CA], aouts[s:s + CA])]
+        chunks.append(("Definition cases : list balchcase := " + coq_list(items) + ".\nDefinition verdicts := map balchcheck cases.\n", len(items)))
     exact, rounded, bad, log = vlib.run_coq_cases("C02", chunks, "From PUN Require Import Model.Interval Model.PboxArith Corr.CorrPbox.\n", jobs=12)
     chk.corr = {"kernel_cases": len(valid), "api_cases": len(ac), "bit_exact": exact, "rounded": rounded, "disagree": len(bad)}
     if log:
@@ -290,7 +306,7 @@ def body(chk):
     for c, o in zip(ac, aouts):
         chk.count(f"api-{c[0]}-{'bare' if c[5] else 'method'}", key=(c[0], c[4], c[5]))
         why = api_oracle(chk, c, o)
-        site = f"Pbox.{c[0]}:f:{pbx.sign_of(*c[2])}:{pbx.sign_of(*c[3])}"
+        site = f"Pbox.{'balchprod' if is_balch(c) else c[0]}:f:{pbx.sign_of(*c[2])}:{pbx.sign_of(*c[3])}"
         if why:
             chk.report(site, why, {"kind": "oracle-api", "op": c[0], "X": c[2], "Y": c[3], "observed": o[:1] + tuple(o[1:2] if o[0] != "ok" else ())})
         elif o[0] == "ok" and c[0] in ("Add", "Mul") :
